@@ -178,6 +178,37 @@ def r_n3(ctx, gen):
                       '`%s` can advance `%s` twice on one path' % (m.path, fl))
 
 
+def r_n6(ctx, gen):
+    """the id space is finite: before any id is produced the ticket counter is compared with u32::MAX and the method
+    fails with DatabaseFull instead of wrapping the u32 counters (ids would repeat)"""
+    F = ctx.F
+    name, a, fields, meths = gen
+    rule = 'N6'
+    for m in meths:
+        if not any(c.callee.endswith('::fetch_add') for c in m.calls()):
+            continue
+        gate = None
+        for b in m.live_blocks():
+            for x in m.succ(b):
+                e = paths.edge_cond(m, b, x)
+                if not (e and e[0] == 'bool' and e[2]):
+                    continue
+                c0 = strip(e[1])
+                if c0[0] == 'binop' and c0[1] in ('Gt', 'Ge'):
+                    lhs, k = strip(c0[2]), const_eval(c0[3])
+                    if lhs[0] == 'call' and lhs[1].endswith('::fetch_add') and k is not None and ((c0[1] == 'Gt' and k <= 0xFFFFFFFF) or (c0[1] == 'Ge' and k <= 0x100000000)):
+                        full = [rb for rb, kk, t in paths.ret_assigns(m) if kk == 'err' and paths.err_variant(t) == 'DatabaseFull' and (rb == x or rb in m.reachable(x))]
+                        if full:
+                            gate = (b, x, lhs[3])
+        good = gate is not None
+        if good:
+            # every id-producing RMW comes after the test (on its false edge)
+            others = [c for c in m.calls() if c.callee.endswith('::fetch_add') and c.bb != gate[2]]
+            good = all(m.dominates(gate[0], c.bb) and c.bb not in m.reachable(gate[1], avoid=[gate[0]]) for c in others)
+        ctx.check(good, rule, m.path + '/full', m.loc(), 'DatabaseFull once 2^32 ids have been handed out, tested before any id is produced',
+                  '`%s` no longer fails with DatabaseFull when the 32-bit id space is exhausted (or tests it after producing an id): the counters wrap and ids repeat' % m.path)
+
+
 def r_n4(ctx, gen):
     F = ctx.F
     name, a, fields, meths = gen
@@ -335,6 +366,35 @@ def r_n5(ctx, gen):
                                     ins.append(show(x.arg_term(1)))
                         good = kinds == ['p-tree'] and any('.item' in s and 'node' in s for s in ins)
                         why = 'used = ids of the Prefix::tree(self.index) scan in `%s`' % g.path
+                        # every success return of that function is the scan's result (no shortcut answering "nothing in use")
+                        if good and its:
+                            goals = [rb for rb, rk, rt in paths.ret_assigns(g) if rk in ('ok', 'call', 'other')]
+                            if goals and not paths.must_pass(g, 0, goals, [x.bb for x in its]):
+                                good = False
+                                why = '`%s` can return a used-id set without scanning the tree nodes' % g.path
+                    # ... and it reaches the generator untouched: nothing removes ids from it on the way
+                    if good:
+                        holder = None
+                        a0 = c.args[0]
+                        if a0.get('k') in ('copy', 'move') and not a0['place']['p']:
+                            holder = a0['place']['l']
+                        holders = []
+                        for _ in range(4):
+                            if holder is None:
+                                break
+                            holders.append(holder)
+                            ds = [d for d in f.defs().get(holder, []) if not d[-1]]
+                            if len(ds) == 1 and ds[0][0] == 'assign' and ds[0][3]['k'] == 'use' and ds[0][3]['o'].get('k') in ('copy', 'move') and not ds[0][3]['o']['place']['p']:
+                                holder = ds[0][3]['o']['place']['l']
+                            else:
+                                break
+                        for holder in holders:
+                            for u in f.uses(holder):
+                                if u['k'] == 'rv' and u['rk'] == 'ref' and u['rv'].get('mut'):
+                                    # a `&mut` borrow of the used set before the generator is built
+                                    if f.dominates(u['bb'], c.bb) or u['bb'] in f.reachable(src[3] if isinstance(src[3], int) else 0):
+                                        good = False
+                                        why = 'the used-id set is mutably borrowed (ids can be removed from it) before the generator is built from it'
                 if not good and src[0] == 'call' and src[1].endswith(('RoaringBitmap>::new', 'Default::default')):
                     # the scan is written out in the caller itself (or was inlined from a new helper): a local bitmap that
                     # only receives the ids of the entries of a Prefix::tree(self.index) cursor
@@ -385,6 +445,7 @@ def run(ctx):
         return
     r_n1(ctx, gen)
     r_n2(ctx, gen)
+    r_n6(ctx, gen)
     r_n3(ctx, gen)
     r_n4(ctx, gen)
     r_n5(ctx, gen)
